@@ -195,7 +195,97 @@ func genDotenv() (string, string) {
 	} {
 		fmt.Fprintf(&b, "def dotenv_body_%s : String := %s\n", fb.name, leanStr(funcBody(fb.file, fb.recv, fb.fn)))
 	}
+	// round 6: the glue around the parser that the `dotenvGlue` stream drives
+	ff := parse("dotenv/format.go")
+	for _, fb := range []struct {
+		name string
+		file *ast.File
+		fn   string
+	}{
+		{"Parse", gf, "Parse"},
+		{"UnmarshalBytesWithLookup", gf, "UnmarshalBytesWithLookup"},
+		{"ReadFile", gf, "ReadFile"},
+		{"Read", gf, "Read"},
+		{"RegisterFormat", ff, "RegisterFormat"},
+		{"ParseWithFormat", ff, "ParseWithFormat"},
+	} {
+		fmt.Fprintf(&b, "def dotenv_body_%s : String := %s\n", fb.name, leanStr(funcBody(fb.file, "", fb.fn)))
+	}
 	fmt.Fprintf(&b, "def dotenv_startsWithDigitRegex : String := %s\n", leanStr(regexVar(gf, "startsWithDigitRegex")))
+	// round 6: every index / slice expression of dotenv/parser.go, in source order, as (function, kind, text of the expression).
+	// The totality theorem `index_sites_are_modelled` pins this list to the table of model sites, so an added or
+	// changed index expression is a broken obligation until the model accounts for it.
+	b.WriteString("/-- every `x[i]` / `x[i:j]` expression of dotenv/parser.go: (enclosing function, \"index\" | \"slice\", expression) -/\n")
+	b.WriteString("def dotenv_indexSites : List (String × String × String) := [")
+	nSites := 0
+	for _, d := range f.Decls {
+		fd, ok := d.(*ast.FuncDecl)
+		if !ok || fd.Body == nil {
+			continue
+		}
+		ast.Inspect(fd.Body, func(n ast.Node) bool {
+			kind := ""
+			switch n.(type) {
+			case *ast.IndexExpr:
+				kind = "index"
+			case *ast.SliceExpr:
+				kind = "slice"
+			}
+			if kind != "" {
+				if nSites > 0 {
+					b.WriteString(",\n  ")
+				}
+				nSites++
+				fmt.Fprintf(&b, "(%s, %s, %s)", leanStr(fd.Name.Name), leanStr(kind), leanStr(strings.Join(strings.Fields(src(n)), " ")))
+			}
+			return true
+		})
+	}
+	b.WriteString("]\n")
+	// other constructs that can panic at run time: explicit panic calls, single-valued type assertions, integer division / shifts
+	b.WriteString("/-- explicit `panic` calls, `x.(T)` without comma-ok, `/ % << >>` in dotenv/parser.go: (function, what) -/\n")
+	b.WriteString("def dotenv_otherPanicSources : List (String × String) := [")
+	nOther := 0
+	for _, d := range f.Decls {
+		fd, ok := d.(*ast.FuncDecl)
+		if !ok || fd.Body == nil {
+			continue
+		}
+		commaOK := map[ast.Node]bool{}
+		ast.Inspect(fd.Body, func(n ast.Node) bool {
+			if as, ok := n.(*ast.AssignStmt); ok && len(as.Lhs) == 2 && len(as.Rhs) == 1 {
+				commaOK[as.Rhs[0]] = true
+			}
+			return true
+		})
+		ast.Inspect(fd.Body, func(n ast.Node) bool {
+			what := ""
+			switch v := n.(type) {
+			case *ast.CallExpr:
+				if id, ok := v.Fun.(*ast.Ident); ok && id.Name == "panic" {
+					what = "panic-call"
+				}
+			case *ast.TypeAssertExpr:
+				if !commaOK[n] && v.Type != nil {
+					what = "type-assert " + src(n)
+				}
+			case *ast.BinaryExpr:
+				switch v.Op {
+				case token.QUO, token.REM, token.SHL, token.SHR:
+					what = "arith " + src(n)
+				}
+			}
+			if what != "" {
+				if nOther > 0 {
+					b.WriteString(", ")
+				}
+				nOther++
+				fmt.Fprintf(&b, "(%s, %s)", leanStr(fd.Name.Name), leanStr(what))
+			}
+			return true
+		})
+	}
+	b.WriteString("]\n")
 	b.WriteString("\nend CV.Gen\n")
 	fmt.Fprintf(logw, "dotenv consts: isSpace %d runes, key switch %d case lists\n", len(flat), len(lk))
 	return "Dotenv.lean", b.String()
